@@ -141,28 +141,26 @@ func searchIndex(p *binary.BinaryProtocol, idx int, elementWireType proto.WireTy
 		result = p.Read
 	} else {
 		// normal Type : [tag][(length)][value][tag][(length)][value][tag][(length)][value]....
-		for p.Read < len(p.Buf) && cnt < idx {
+		// p.Read points to the tag of the first element
+		for p.Read < len(p.Buf) {
 			// don't move p.Read and judge whether readList completely
+			elementFieldNumber, _, n, err := p.ConsumeTagWithoutMove()
+			if err != nil {
+				return 0, err
+			}
+			if elementFieldNumber != fieldNumber {
+				break
+			}
+			if cnt == idx {
+				return p.Read, nil
+			}
+			p.Read += n
 			if err := p.Skip(elementWireType, false); err != nil {
 				return 0, errNode(meta.ErrRead, "searchIndex: skip unpacked list element error.", err)
 			}
 			cnt++
-			if p.Read < len(p.Buf) {
-				// don't move p.Read and judge whether readList completely
-				elementFieldNumber, _, n, err := p.ConsumeTagWithoutMove()
-				if err != nil {
-					return 0, err
-				}
-				if elementFieldNumber != fieldNumber {
-					break
-				}
-				if cnt < idx {
-					p.Read += n
-				}
-				result = p.Read + n
-			}
 		}
-
+		return p.Read, errNotFound
 	}
 
 	if cnt < idx {
@@ -316,7 +314,8 @@ func (self Value) getByPath(pathes ...Path) (Value, []int) {
 	}
 
 	if !isRoot {
-		if self.t == proto.LIST || self.t == proto.MAP {
+		// NOTICE: an unpacked list is searched from the tag of its first element
+		if (self.t == proto.LIST && desc.IsPacked()) || self.t == proto.MAP {
 			p.ConsumeTag()
 		}
 	}
@@ -414,7 +413,8 @@ func (self Value) getByPath(pathes ...Path) (Value, []int) {
 			return errValue(en.ErrCode().Behavior(), "invalid value node.", err), address
 		}
 		// if not the last one, it must be a complex node, so need to skip tag
-		if i != len(pathes)-1 {
+		// NOTICE: an unpacked list is searched from the tag of its first element
+		if i != len(pathes)-1 && !(tt == proto.LIST && !desc.IsPacked()) {
 			if _, _, _, err := p.ConsumeTag(); err != nil {
 				return errValue(meta.ErrRead, "invalid field tag failed.", err), address
 			}
